@@ -9,24 +9,44 @@ def lutBit4 (lut : Nat) (a b c d : Bool) : Bool := (lut >>> lutIdx a b c d) % 2 
 
 /-- The documented Boolean function of each primitive name (comments of sim.py:28-40 and the
     ordinary meaning of AND/OR/XOR families). This is specification, written by hand. -/
-def formula (name : String) (a b c d : Bool) : Option Bool :=
+def formulaF (name : String) : Option (Bool → Bool → Bool → Bool → Bool) :=
   match name with
-  | "BUF1" => some a
-  | "INV1" => some (!a)
-  | "AND2" => some (a && b) | "AND3" => some (a && b && c) | "AND4" => some (a && b && c && d)
-  | "NAND2" => some !(a && b) | "NAND3" => some !(a && b && c) | "NAND4" => some !(a && b && c && d)
-  | "OR2" => some (a || b) | "OR3" => some (a || b || c) | "OR4" => some (a || b || c || d)
-  | "NOR2" => some !(a || b) | "NOR3" => some !(a || b || c) | "NOR4" => some !(a || b || c || d)
-  | "XOR2" => some (a ^^ b) | "XOR3" => some (a ^^ b ^^ c) | "XOR4" => some (a ^^ b ^^ c ^^ d)
-  | "XNOR2" => some !(a ^^ b) | "XNOR3" => some !(a ^^ b ^^ c) | "XNOR4" => some !(a ^^ b ^^ c ^^ d)
-  | "AO21" => some ((a && b) || c) | "AOI21" => some !((a && b) || c)
-  | "AO22" => some ((a && b) || (c && d)) | "AOI22" => some !((a && b) || (c && d))
-  | "OA21" => some ((a || b) && c) | "OAI21" => some !((a || b) && c)
-  | "OA22" => some ((a || b) && (c || d)) | "OAI22" => some !((a || b) && (c || d))
-  | "AO211" => some ((a && b) || c || d) | "AOI211" => some !((a && b) || c || d)
-  | "OA211" => some ((a || b) && c && d) | "OAI211" => some !((a || b) && c && d)
-  | "MUX21" => some (if c then b else a)
+  | "BUF1" => some fun a b c d => a
+  | "INV1" => some fun a b c d => (!a)
+  | "AND2" => some fun a b c d => (a && b)
+  | "AND3" => some fun a b c d => (a && b && c)
+  | "AND4" => some fun a b c d => (a && b && c && d)
+  | "NAND2" => some fun a b c d => !(a && b)
+  | "NAND3" => some fun a b c d => !(a && b && c)
+  | "NAND4" => some fun a b c d => !(a && b && c && d)
+  | "OR2" => some fun a b c d => (a || b)
+  | "OR3" => some fun a b c d => (a || b || c)
+  | "OR4" => some fun a b c d => (a || b || c || d)
+  | "NOR2" => some fun a b c d => !(a || b)
+  | "NOR3" => some fun a b c d => !(a || b || c)
+  | "NOR4" => some fun a b c d => !(a || b || c || d)
+  | "XOR2" => some fun a b c d => (a ^^ b)
+  | "XOR3" => some fun a b c d => (a ^^ b ^^ c)
+  | "XOR4" => some fun a b c d => (a ^^ b ^^ c ^^ d)
+  | "XNOR2" => some fun a b c d => !(a ^^ b)
+  | "XNOR3" => some fun a b c d => !(a ^^ b ^^ c)
+  | "XNOR4" => some fun a b c d => !(a ^^ b ^^ c ^^ d)
+  | "AO21" => some fun a b c d => ((a && b) || c)
+  | "AOI21" => some fun a b c d => !((a && b) || c)
+  | "AO22" => some fun a b c d => ((a && b) || (c && d))
+  | "AOI22" => some fun a b c d => !((a && b) || (c && d))
+  | "OA21" => some fun a b c d => ((a || b) && c)
+  | "OAI21" => some fun a b c d => !((a || b) && c)
+  | "OA22" => some fun a b c d => ((a || b) && (c || d))
+  | "OAI22" => some fun a b c d => !((a || b) && (c || d))
+  | "AO211" => some fun a b c d => ((a && b) || c || d)
+  | "AOI211" => some fun a b c d => !((a && b) || c || d)
+  | "OA211" => some fun a b c d => ((a || b) && c && d)
+  | "OAI211" => some fun a b c d => !((a || b) && c && d)
+  | "MUX21" => some fun a b c d => (if c then b else a)
   | _ => none
+
+def formula (name : String) (a b c d : Bool) : Option Bool := (formulaF name).map fun f => f a b c d
 
 def primNames : List String :=
   ["BUF1","INV1","AND2","AND3","AND4","NAND2","NAND3","NAND4","OR2","OR3","OR4","NOR2","NOR3","NOR4",
@@ -44,8 +64,10 @@ structure PrefixRow where
 
 /-- sim.py:207-215: first prefix (in dictionary order) that the lower-cased kind starts with;
     the arity variant is chosen by whether pin 3, then pin 2 is unconnected. -/
+def startsWithL (s pre : String) : Bool := pre.toList.isPrefixOf s.toList
+
 def selectPrim (table : List PrefixRow) (kind : String) (conn2 conn3 : Bool) : Option Nat :=
-  match table.find? (fun r => kind.startsWith r.pre) with
+  match table.find? (fun r => startsWithL kind r.pre) with
   | none => none
   | some r => some (if conn3 then r.p4 else if conn2 then r.p3 else r.p2)
 
